@@ -622,7 +622,7 @@ def r0_config(ctx):
         return ev.run_fn(lon, [L(S("<root>")), cfgv, A("fkp"), A("warnings"), L()]), log
     n3 = 0
     for ldir in ("locales", "i18n/locales", "../shared"):
-        for nss in (None, ["common", "home"]):
+        for nss in (None, ["common", "home"], []):
             for exts in (["json"], ["yaml", "yml"]):
                 locs = ["en", "fr", "de"]
                 cfgv = CF("ConfigFile", default=K("en"), locales=L(*[K(x) for x in locs]), name_spaces=C("None") if nss is None else C("Some", L(*[K(x) for x in nss])),
@@ -648,13 +648,16 @@ def r0_config(ctx):
                 wantw = [(l, "None") for l in locs] if nss is None else [(l, "Some(Key(name: %s))" % n) for n in nss for l in locs]
                 if whom != wantw:
                     r.viol("R0:files#owner", "%s: files are parsed as (locale, namespace) %s, expected %s" % (case, whom[:4], wantw[:4]), file=PL, line=lon.line)
-                # a missing file is an error naming every attempt
-                miss = sorted(fs)[len(fs) // 2]
-                got2, log2 = run_files(cfgv, exts, fs - {miss})
-                if isinstance(got2, str):
-                    return r, False, got2
-                if not (got2[0] == "ctor" and got2[1] == "Err" and got2[2] and got2[2][0][0] == "ctor" and got2[2][0][1] == "LocaleFileNotFound"):
-                    r.viol("R0:files#missing", "%s with %s missing: %s, expected Err(LocaleFileNotFound)" % (case, miss, absint.fmt(got2)[:80]), file=PL, line=lon.line)
+                if nss == [] and not (got[0] == "ctor" and got[1] == "Ok" and got[2] and got[2][0][0] == "ctor" and got[2][0][1] == "NameSpaces" and not log):
+                    r.viol("R0:files#empty-namespaces", "%s: `namespaces = []` declares a project made of namespaces with none listed - no file is read; got %s after %s" % (case, absint.fmt(got)[:80], have[:4]), file=PL, line=lon.line)
+                # a missing file - whichever locale or namespace it belongs to - is an error naming every attempt
+                for miss in sorted(fs):
+                    got2, log2 = run_files(cfgv, exts, fs - {miss})
+                    if isinstance(got2, str):
+                        return r, False, got2
+                    if not (got2[0] == "ctor" and got2[1] == "Err" and got2[2] and got2[2][0][0] == "ctor" and got2[2][0][1] == "LocaleFileNotFound"):
+                        r.viol("R0:files#missing", "%s with %s missing: %s, expected Err(LocaleFileNotFound)" % (case, miss, absint.fmt(got2)[:80]), file=PL, line=lon.line)
+                        break
     if not [v for v in r.violations if "files#" in v.key]:
         r.inst("LocalesOrNamespaces::new", "%d layouts: <manifest>/<locales-dir>/<locale>[/<namespace>].<ext>, extensions probed in order, one file per (locale, namespace), a missing file is LocaleFileNotFound" % n3)
     return r, True, None
